@@ -39,6 +39,7 @@ def run(chk, scratch):
         raise vlib.Inconclusive("trace projection and LockTimedTrace.tla disagree at event %s of %d" % (matched, total))
     events = vlib.read_ndjson(trace)
     valid = discarded = 0
+    suspects, rounds = [], 0
     for tag, v in r.printed:
         if tag != "VERDICT":
             continue
@@ -48,13 +49,25 @@ def run(chk, scratch):
         discarded += v["discarded"]
         if v["valid"] > 1 or v["id"] >= 1000:
             chk.nontrivial += 1
+        if v["id"] < 1000:
+            rounds += 1
         for s in v["viol"]:
+            if s == "suspect-live-lock-heartbeat-late":
+                suspects.append(v["id"])
+                continue
             ctx = [e for e in events if e.get("id") == v["id"] and e.get("op") != "Ctl"] if v["id"] < 1000 else [events[v["id"] - 1001]]
             if v["id"] < 1000:
                 died = [e["t"] for e in ctx if e.get("op") == "Died"]
                 if died:   # keep what matters: everything from shortly before the death on
                     ctx = [e for e in ctx if e.get("op") in ("Start", "Died", "Recover") or max(e.get("t", 0), e.get("start", 0)) > died[0] - 300000]
             chk.violation(s, "round/death point %d: %s" % (v["id"], s), {"events": ctx})
+    # one late beat while the control heartbeat was on time is what a sporadic stall of a single goroutine looks like;
+    # a library that does not keep its period shows it round after round
+    chk.cov["suspect_rounds_live_lock_judged_stale"] = len(suspects)
+    if len(suspects) >= max(2, (rounds + 3) // 4):
+        ctx = [e for e in events if e.get("id") == suspects[0] and e.get("op") in ("Start", "Acquired", "Sign", "Died", "Stats")][:60]
+        chk.violation("live-lock-heartbeat-late", "a live lock was judged stale although the control heartbeat kept its period, in %d of %d real-time rounds (rounds %s)"
+                      % (len(suspects), rounds, suspects[:10]), {"events": ctx})
     chk.cov["polls_valid"] = valid
     chk.cov["discarded_overloaded"] = discarded
     chk.cov["trace_events_validated"] = total
